@@ -1,6 +1,7 @@
 // C14 correspondence probe and failing-input search (mobilizer reaction forces).
 //   C14_probe corr   <seed> <nsystems> <maxBodies>   model inputs (SYS/BODY lines) + implementation results (OUT ...)
-//   C14_probe search <seed> <nsystems> <maxBodies>   per-body Newton-Euler residual etc. on the implementation alone
+//   C14_probe search <seed> <nsystems> <maxBodies>   per-body Newton-Euler residual etc. on the implementation alone, for the reactions of
+//                                                   BOTH methods (find*/calcMobilizerReactionForces and the free-body method), and the two compared
 // Random simbody trees over the 17 built-in mobilizer types (incl. Weld), forward/reversed, quaternion/Euler, massless
 // non-terminal bodies, with gravity, random applied body and mobility forces, optionally a Rod/Ball constraint, a
 // prescribed (Sinusoid) mobilizer and a locked mobilizer; realized to Acceleration.
@@ -149,6 +150,11 @@ static int search(unsigned long long seed, int nsys, int maxb) {
         Vector_<SpatialVec> fc; Vector mc; constraintForces(cs, fc, mc);
         Vector_<SpatialVec> FM; m.calcMobilizerReactionForces(s, FM);
         Real fscale = 0; for (int b = 0; b < NB; ++b) fscale = std::max(fscale, svn(FM[b]));
+        // the free-body method's own output (reported at M): moved back to the body origins with the (random, non-trivial) X_BM offsets
+        Vector_<SpatialVec> FMfb; m.calcMobilizerReactionForcesUsingFreebodyMethod(s, FMfb);
+        std::vector<SpatialVec> FBfb(NB);
+        for (MobilizedBodyIndex b(0); b < NB; ++b) { const MobilizedBody& mb = m.getMobilizedBody(b);
+            FBfb[b] = shiftForceBy(FMfb[b], -(mb.getBodyRotation(s) * mb.getOutboardFrame(s).p())); fscale = std::max(fscale, svn(FMfb[b])); }
         for (MobilizedBodyIndex b(1); b < NB; ++b) {
             const MobilizedBody& mb = m.getMobilizedBody(b); const MassProperties& mp = mb.getBodyMassProperties(s); const Rotation& R = mb.getBodyRotation(s);
             // rate of change of momentum about the body origin, classical form (independent of the spatial-inertia code)
@@ -161,6 +167,15 @@ static int search(unsigned long long seed, int nsys, int maxb) {
                 if (ch.getParentMobilizedBody().getMobilizedBodyIndex() != b) continue;
                 total += ch.findMobilizerReactionOnParentAtOriginInGround(s); }
             chk((int)b == cs.lone ? "loneparticle-com-offset-reaction-torque" : "newton-euler-residual", svn(total - rate), fscale + svn(rate), seed, k, b, cs);
+            // the same balance with the reactions returned by the free-body method: own reaction at the origin plus, for every child,
+            // the negated child reaction moved from the child's origin to this body's origin
+            { SpatialVec tot = Fapp[b] - fc[b] + FBfb[b];
+              for (MobilizedBodyIndex cb(1); cb < NB; ++cb) { const MobilizedBody& ch = m.getMobilizedBody(cb);
+                  if (ch.getParentMobilizedBody().getMobilizedBodyIndex() != b) continue;
+                  tot += shiftForceBy(-FBfb[cb], mb.getBodyTransform(s).p() - ch.getBodyTransform(s).p()); }
+              chk("freebody-method-newton-euler-residual", svn(tot - rate), fscale + svn(rate), seed, k, b, cs); }
+            // the two methods must report the same reaction (at M)
+            chk((int)b == cs.lone ? "loneparticle-com-offset-reaction-torque" : "freebody-method=calcMobilizerReactionForces", svn(FMfb[b] - FM[b]), fscale, seed, k, b, cs);
             // equal and opposite: body-side reaction at M and parent-side reaction at F, both moved to the parent's origin, cancel
             const Transform& XP = mb.getParentMobilizedBody().getBodyTransform(s); const Transform& X = mb.getBodyTransform(s);
             Vec3 pM = X.p() + R * mb.getOutboardFrame(s).p(), pF = XP.p() + XP.R() * mb.getInboardFrame(s).p();
@@ -178,7 +193,11 @@ static int search(unsigned long long seed, int nsys, int maxb) {
         // Ground: what the universe must supply = minus everything the base mobilizers and applied forces put on Ground
         { SpatialVec g = Fapp[0] - fc[0] + m.getMobilizedBody(MobilizedBodyIndex(0)).findMobilizerReactionOnBodyAtOriginInGround(s);
           for (MobilizedBodyIndex cb(1); cb < NB; ++cb) if (m.getMobilizedBody(cb).getParentMobilizedBody().getMobilizedBodyIndex() == 0) g += m.getMobilizedBody(cb).findMobilizerReactionOnParentAtOriginInGround(s);
-          chk("ground-balance", svn(g), fscale, seed, k, 0, cs); }
+          chk("ground-balance", svn(g), fscale, seed, k, 0, cs);
+          SpatialVec gf = Fapp[0] - fc[0] + FBfb[0];
+          for (MobilizedBodyIndex cb(1); cb < NB; ++cb) if (m.getMobilizedBody(cb).getParentMobilizedBody().getMobilizedBodyIndex() == 0) gf += shiftForceBy(-FBfb[cb], -m.getMobilizedBody(cb).getBodyTransform(s).p());
+          chk("freebody-method-ground-balance", svn(gf), fscale, seed, k, 0, cs);
+          chk(cs.lone > 0 ? "loneparticle-com-offset-reaction-torque" : "freebody-method=calcMobilizerReactionForces", svn(FMfb[0] - FM[0]), fscale, seed, k, 0, cs); }
     }
     std::printf("DONE %ld fails=%d failsLone=%d\n", evals, fails, failsLone);
     return 0;
